@@ -71,6 +71,43 @@ def expected(doc, base_parts, sels, style):
     return build(tree, origin)
 
 
+def interleaved_selects(ctx, r):
+    """ONE Query asked for two (three) projections with different relative queries before any is consumed, the result
+    iterators then advanced in turn: each pull takes the next matches from the shared source and must project them
+    with the relative queries of ITS OWN select() call.  Reference per match: a fresh single-match Query (the route the
+    rest of this check validates against the model)."""
+    import jsonpath
+
+    n = r.randint(2, 7)
+    doc = {"records": [{"id": i, "kind": r.choice(["a", "b"]), "payload": {"x": [i, i + 1, i + 2], "y": {"z": i}}, "tags": ["t%d" % i]} if r.random() < 0.85 else i for i in range(n)]}
+    lists = [["id", "kind"], ["payload.x[1:]", "payload.y"], ["tags[0]", "payload.y.z", "nothing"], ["kind"]]
+    for style in ("RELATIVE", "ROOT", "FLAT"):
+        proj = getattr(jsonpath.Projection, style)
+        k = r.choice([2, 2, 3])
+        chosen = r.sample(lists[:3], k)
+        ctx.evaluation()
+        q = jsonpath.query("$.records.*", doc)
+        its = [iter(q.select(*L, projection=proj)) for L in chosen]
+        src = list(jsonpath.finditer("$.records.*", doc))
+        pos = 0
+        order = [i % k for i in range(n + 2)] if r.random() < 0.5 else [r.randrange(k) for _ in range(n + 2)]
+        for step, i in enumerate(order):
+            got = impl.call(lambda: next(its[i], None))
+            # what the pull must give: skip matches whose projection under chosen[i] is empty
+            want = None
+            while pos < len(src):
+                one = list(jsonpath.Query([src[pos]], jsonpath.DEFAULT_ENV).select(*chosen[i], projection=proj))
+                pos += 1
+                if one:
+                    want = one[0]
+                    break
+            ctx.count("interleaved_select_pulls")
+            if not got.ok or canon(got.value) != canon(want):
+                ctx.violation("projection-uses-another-select-call's-relative-queries", {"interleaved_selects": True}, {"style": style, "relative_query_lists": chosen, "pull": step, "iterator": i, "got": got.desc() if not got.ok else canon(got.value)[:300], "expected": canon(want)[:300]})
+                return False
+    return True
+
+
 def classify(sels):
     """ascending?, overlapping?"""
     locs = [tuple(rel) for rel, _ in sels]
@@ -272,6 +309,9 @@ def run(spec, ctx):
             for rel in rels:
                 for style in ("RELATIVE", "ROOT", "FLAT"):
                     check_case(ctx, impl.fresh(doc), mq, rr.top(mq), rel, [rr.top(a) for a in rel], style, "directed")
+    for _ in range(max(20, spec["n"] // 20)):
+        if not interleaved_selects(ctx, r):
+            break
     for _ in range(spec["n"]):
         doc = gen.gen_doc(r, profile=r.choice(["unique", "mixed", "lookalike"]), hostile=r.choice([0.1, 0.5]), max_depth=r.randint(2, 4), fan=r.randint(2, 4))
         mq = gen.gen_std_query(r, doc, max_segs=2, desc=0.2) if r.random() < 0.7 else ["q", "$", []]
@@ -295,6 +335,11 @@ def finalize(m, tier):
 
 
 def replay(case, ctx):
+    if case.get("interleaved_selects"):
+        for _ in range(200):
+            if not interleaved_selects(ctx, ctx.rng):
+                return
+        return
     if case.get("multi_env"):
         multi_env_history(ctx)
         return
